@@ -194,7 +194,16 @@ func (multi *MultiEpoch) handleGetSignaturesForAddress(ctx context.Context, conn
 	// The response is an array of objects: [{signature: string}]
 	response := make([]map[string]any, countTransactions(foundTransactions))
 	numBefore := 0
-	for ei := range foundTransactions {
+	// The history is newest first: walk the epochs from the most recent to the oldest
+	// (ranging over the map would emit them in random order).
+	foundEpochs := make([]uint64, 0, len(foundTransactions))
+	for epochNum := range foundTransactions {
+		foundEpochs = append(foundEpochs, epochNum)
+	}
+	sort.Slice(foundEpochs, func(i, j int) bool {
+		return foundEpochs[i] > foundEpochs[j]
+	})
+	for _, ei := range foundEpochs {
 		epoch := ei
 		ser, err := multi.GetEpoch(epoch)
 		if err != nil {
